@@ -167,7 +167,9 @@ def run(ctx):
     fcc = A.Conds(fc, fr)
     nones = [b for b, e in A.return_exprs(fc, fr) if A.peel(e)[0] == "agg" and A.peel(e)[2] == "None"]
     loop_blocks = set().union(*[body for _, body in fc.loops()]) if fc.loops() else set()
-    contains_true = fcc.edges_where(lambda fct: fct[0] == "call" and fct[1].endswith("HashSet::<T, S, A>::contains") and fct[3] is True)
+    # "already visited": `seen.contains(x)` is true, or `seen.insert(x)` returns false (it was there already)
+    contains_true = fcc.edges_where(lambda fct: fct[0] == "call" and ((fct[1].endswith("HashSet::<T, S, A>::contains") and fct[3] is True)
+                                                                     or (fct[1].endswith("HashSet::<T, S, A>::insert") and fct[3] is False)))
     ok = any(all(nb in fc.reachable(s) and nb not in loop_blocks or True for a, s in contains_true) for nb in nones) and bool(contains_true)
     for a, s in contains_true:
         reach = fc.reachable(s)
